@@ -16,6 +16,11 @@ executor writes through the `verif` hooks and must find it accepted.
 Everything that is deterministic in the code between two labels (guard evaluation from
 the task's data, `ignore_error` handling, registering `defer:` entries, wrapping errors
 in `TaskRunError`) is computed by the model, not read from the log.
+
+Results: an execution (own or shared through `startExecution`) ends with an `Outcome` — the
+bare error plus the `taskFailure` marker; every activation that takes it (the executor and
+each dedup waiter) derives its own result with `wrapFor` from its own `indirect` flag
+(`Act.out` ↦ `Act.res`; invariant `res = wrapFor indirect out`, `S2.OutInv`).
 -/
 namespace TaskModel.Sched
 
@@ -32,6 +37,22 @@ deriving DecidableEq, Repr, Inhabited
 def Res.isOk : Res → Bool
   | .ok => true
   | _ => false
+
+/-- What the one real execution of a task — the closure `RunTask` hands to `startExecution` —
+ends with, and what every caller sharing that execution (`other.err`) receives: the *bare*
+error, and whether it came inside the private marker `*taskFailure` (a failing command, or a
+dependency that failed with an exit status).  Anything else (context errors, failed
+preconditions, a declined prompt, other dependency errors) is never wrapped. -/
+structure Outcome where
+  err : Res := .ok
+  wrappable : Bool := false
+deriving DecidableEq, Repr, Inhabited
+
+/-- `RunTask` after `startExecution` returned: each caller — the one that executed the task
+and every waiter — unwraps the marker and wraps the failure according to its OWN call:
+`call.Indirect` → the bare error, a direct call → `&errors.TaskRunError{TaskName, Err}`. -/
+def wrapFor (indirect : Bool) (o : Outcome) : Res :=
+  if o.wrappable then (if indirect then o.err else .run o.err) else o.err
 
 inductive Cmd
   | shell (code : Nat) (ignoreErr deferred : Bool)   -- `exit code`
@@ -114,7 +135,8 @@ structure Act where
   ran : List Nat := []           -- history: deferred entries run, in order
   started : List Nat := []       -- history: non-deferred commands started, in order
   exitCode : Nat := 0            -- `deferredExitCode`
-  res : Res := .ok               -- result of the activation once decided
+  res : Res := .ok               -- result of the activation once decided (what `RunTask` returns)
+  out : Outcome := {}            -- what `startExecution` returned to it (own execution or shared), before wrapping
   callRes : Res := .ok           -- result of the `task:` command just returned
 deriving Repr, Inhabited
 
@@ -184,13 +206,38 @@ def Act.next (x : Act) (cmds : List Cmd) (i : Nat) : Act :=
                    phase := if stack.isEmpty then .finished else .defers }
   | _ :: _ => { x with rest := rest, idx := i', regs := regs, stack := stack, phase := .body }
 
-/-- the activation's body stops with error `r` (already past `ignore_error` handling) -/
+/-- the activation's body stops with error `r` (already past `ignore_error` handling): the
+execution ends with `taskFailure{r}`; its own caller gets `wrapFor x.indirect ⟨r, true⟩` -/
 def Act.fail (x : Act) (r : Res) : Act :=
-  { x with res := if x.indirect then r else .run r,
+  { x with res := if x.indirect then r else .run r, out := ⟨r, true⟩,
            phase := if x.stack.isEmpty then .finished else .defers }
 
-/-- the activation stops before its command loop (guards, dependency failure): no defers registered -/
-def Act.stop (x : Act) (r : Res) : Act := { x with res := r, phase := .finished }
+/-- the activation stops before its command loop (guards, dependency failure) with the
+unmarked error `r`: no defers registered -/
+def Act.stop (x : Act) (r : Res) : Act := { x with res := r, out := ⟨r, false⟩, phase := .finished }
+
+/-- what the execution ends with when its dependency group reports `r`: an exit status goes
+into the marker, anything else is returned as it is -/
+def depOut : Res → Outcome
+  | .exit n => ⟨.exit n, true⟩
+  | r => ⟨r, false⟩
+
+/-- the error a failing dependency group gives the task (`= wrapFor indirect (depOut r)`): an
+exit status is wrapped for a direct call -/
+def depErr (indirect : Bool) (r : Res) : Res :=
+  match r with
+  | .exit n => if indirect then Res.exit n else Res.run (.exit n)
+  | r => r
+
+theorem depErr_isOk (b : Bool) (r : Res) : (depErr b r).isOk = r.isOk := by
+  cases r <;> cases b <;> rfl
+
+theorem depErr_not_exit (b : Bool) (r : Res) (h : ∀ n, r ≠ .exit n) : depErr b r = r := by
+  cases r <;> first | rfl | exact absurd rfl (h _)
+
+/-- the activation stops because its dependency group reported the failure `r` -/
+def Act.stopDeps (x : Act) (r : Res) : Act :=
+  { x with res := depErr x.indirect r, out := depOut r, phase := .finished }
 
 /-- outcome of non-deferred command `i` with raw result `r` -/
 def Act.afterCmd (x : Act) (c : Cmd) (r : Res) : Act :=
@@ -292,7 +339,7 @@ def freshAct (P : Program) (F : Flags) (c : Config) (kind : Kind) (t : Nat) : Ac
   let x0 : Act := { kind, task := t, indirect := (match kind with | .top _ => false | _ => true),
                     phase := .entered, def_ := (P[t]?).getD {} }
   match earlyResult P[t]? (c.callCount t + 1) F.maxCalls with
-  | some r => { x0 with phase := .early, res := r }
+  | some r => { x0 with phase := .early, res := r, out := ⟨r, false⟩ }
   | none => x0
 
 /-- `atomic.AddInt32(e.taskCallCount[t], 1)`: reached only when platform / requires / enum passed -/
@@ -350,7 +397,7 @@ structure Obs where
   deps : Unit → Option (List Res) -- results of all dependency activations, once all have exited
   callKid : Unit → Option Res     -- result of the activation called by the current `task:` command, once exited
   registered : Nat → Bool         -- is a dedup key registered?
-  execResult : Unit → Option Res  -- result of the execution this waiter waits for, once it has finished
+  execResult : Unit → Option Outcome  -- what the execution this waiter waits for ended with, once it has finished
 
 inductive Eff | none | acq | rel | reg (k : Nat)
 deriving DecidableEq, Repr
@@ -371,8 +418,9 @@ def stepLocal (F : Flags) (o : Obs) (x : Act) (ev : Ev) : Option (Act × Eff) :=
   | .wRelease, .wWaiting => some ({ x with phase := .wReleased, holds := false }, .rel)
   | .wWake, .wReleased =>
     -- the waiter returns only once the registered execution has really finished, with its outcome
+    -- (`other.err`), which it then wraps according to its own call like any other caller
     match o.execResult () with
-    | some r => some ({ x with phase := .wWoken, res := r }, .none)
+    | some r => some ({ x with phase := .wWoken, res := wrapFor x.indirect r, out := r }, .none)
     | none => none
   | .wReacq, .wWoken =>
     if o.capFree then some ({ x with phase := .finished, holds := true }, .acq) else none
@@ -390,11 +438,9 @@ def stepLocal (F : Flags) (o : Obs) (x : Act) (ev : Ev) : Option (Act × Eff) :=
         (if rs.all Res.isOk then some ({ x with phase := .guards }, .none) else none)
       else if rs.contains r then
         -- the errgroup keeps the first error in real time: any failing member's error is possible.
-        -- A failing dependency fails the task; an exit status is wrapped for a direct call.
-        let r' := match r with
-          | .exit n => if x.indirect then Res.exit n else Res.run (.exit n)
-          | r => r
-        some (x.stop r', .none)
+        -- A failing dependency fails the task; an exit status is marked (`depOut`), so that every
+        -- caller sharing the execution wraps it if it was called directly (`depErr` for this one).
+        some (x.stopDeps r, .none)
       else none
   -- guards (task.go: ctx check, preconditions, fingerprint, prompt)
   | .ctxErr, .guards => if o.cancelled () then some (x.stop .ctx, .none) else none
@@ -473,8 +519,9 @@ def stepLocal (F : Flags) (o : Obs) (x : Act) (ev : Ev) : Option (Act × Eff) :=
   | .exit, .released => some ({ x with phase := .done }, .none)
   | _, _ => none
 
-/-- has the registered execution of key `k` finished, and with what result? -/
-def execResultOf (c : Config) (k? : Option Nat) : Option Res :=
+/-- has the registered execution of key `k` finished, and what did it end with?  (The bare
+outcome, not the executing activation's own — wrapped — result.) -/
+def execResultOf (c : Config) (k? : Option Nat) : Option Outcome :=
   match k? with
   | none => none
   | some k =>
@@ -484,7 +531,7 @@ def execResultOf (c : Config) (k? : Option Nat) : Option Res :=
       match c.act? e with
       | none => none
       | some ex =>
-        if ex.phase = .execDoneP || ex.phase = .released || ex.phase = .done then some ex.res else none
+        if ex.phase = .execDoneP || ex.phase = .released || ex.phase = .done then some ex.out else none
 
 def callKidOf (c : Config) (x : Act) : Option Res :=
   match x.phase with
